@@ -447,6 +447,11 @@ def run_case(case: dict, ctx: dict) -> dict:
         missing = [k for k in DOCUMENTED_SHORTHAND_KEYS if not isinstance(group, dict) or k not in group]
         if missing:
             pre_violations.append({"signature": "%s:shorthand-group-incomplete:%s" % (PROP, std_name), "detail": {"std": std_name, "missing_documented_keys": missing}})
+        # ... and nothing but it (besides the standard and flavour the shorthand stands for): any other option in the group would
+        # be reset to a built-in value on top of every explicit source, since the group is applied last
+        extra = [k for k in (group or {}) if k not in DOCUMENTED_SHORTHAND_KEYS and k not in ("std", "std_flavor")] if isinstance(group, dict) else []
+        if extra:
+            pre_violations.append({"signature": "%s:shorthand-group-sets-undocumented-option:%s" % (PROP, std_name), "detail": {"std": std_name, "undocumented_keys": sorted(extra)}})
     builders = []  # type: typing.List[typing.Any]
     models = []  # type: typing.List[ModelBuilder]
     contexts = []  # type: typing.List[dict]
